@@ -119,6 +119,11 @@ def check(run):
                 open(n, "wb").write(data)
                 names.append(n); files[n] = (kind, data, dump)
             out = os.path.join(d, "out")
+            # in-place accumulation: the output is one of the inputs (safe because the output is produced as '<name>.part' and
+            # renamed only when complete)
+            if ci % 8 == 5 and names:
+                out = rng.choice(names)
+                run.count("output is one of the inputs")
             r = run_tool(tools["cdns-merge"], ["-o", out] + names)
             metas.append((ci, names, files, out, r))
         # model + readers
@@ -145,7 +150,7 @@ def check(run):
             run.case(ml[:300], True)
             kinds = sorted(set(k for k, _, _ in files.values()))
             run.count("members:" + "+".join(kinds))
-            case_txt = "cdns-merge -o out " + " ".join(os.path.basename(n) for n in names) + " ;; " + " ;; ".join(
+            case_txt = "cdns-merge -o %s " % os.path.basename(out) + " ".join(os.path.basename(n) for n in names) + " ;; " + " ;; ".join(
                 "%s=%s" % (os.path.basename(n), (v[1].hex()[:3000])) for n, v in files.items())
             if r is None or r.returncode != 0 or "Sanitizer" in (r.stderr or ""):
                 sig = "merge:tool-failed"
@@ -175,7 +180,7 @@ def check(run):
             data_len = os.path.getsize(out) if os.path.exists(out) else -1
             bad = None
             if expected is None:
-                if data_len > 0:
+                if data_len > 0 and out not in files:           # (an in-place output that receives nothing keeps being the input it was)
                     bad = ("merge:data-without-blocks", {"why": "no block was to be merged, yet the output holds %d bytes" % data_len})
             elif got != expected:
                 bad = ("merge:content", {"library reader(output)": (got or "")[:1500], "expected": expected[:1500]})
